@@ -1,6 +1,8 @@
 (* PromotionProofs.v — lemmas about model/Promotion.v (C04). *)
 From Verif Require Import model.Base model.Promotion.
 From Coq Require Import Qabs Qround Lqa Sorting.Sorted ZifyBool.
+From Verif Require model.Rung proofs.RungProofs.
+From Coq Require Strings.String.
 
 Ltac inv H := inversion H; subst; clear H.
 
@@ -3108,4 +3110,119 @@ Proof.
   intros Hv Ht H. unfold rule_ok in H.
   destruct (c_variant cfg) eqn:Ev; try congruence; destruct H as [c [Hq Hw]]; exists c; (split; [exact Hq|]);
     apply within_not_no; assumption.
+Qed.
+
+(* ==== constructor layer ================================================================================ *)
+Lemma mk_quantiles_length : forall levels max_t, length (Rung.mk_quantiles levels max_t) = length levels.
+Proof. induction levels as [|x r IH]; intros m; simpl; auto. Qed.
+
+Lemma map_fst_combine {A B} : forall (l : list A) (l' : list B), length l = length l' -> map fst (combine l l') = l.
+Proof. induction l as [|a l IH]; intros [|b l'] H; simpl in *; try discriminate; auto. f_equal. apply IH. lia. Qed.
+
+(* the documented rule for the maximum resource *)
+Definition documented_max (k : ctor) (v : Z) : Prop :=
+  k_max_t k = Some v \/
+  (k_max_t k = None /\ exists a, k_mra k = Some a /\ Rung.MaxT.cs_getval (k_cspace k) a = Some v) \/
+  (k_max_t k = None /\ (k_mra k = None \/ exists a, k_mra k = Some a /\ Rung.MaxT.cs_getval (k_cspace k) a = None) /\
+   Rung.MaxT.first_some (k_cspace k) Rung.MaxT.default_max_t_names = Some v).
+
+Lemma make_config_inv k cfg : make_config k = Some cfg ->
+  exists levels, Rung.MaxT.infer_max_resource_level (k_max_t k) (k_mra k) (k_cspace k) = Some (c_max_t cfg) /\
+    Rung.sh_rung_levels (k_rung_levels k) (k_grace k) (k_rf k) (k_incr k) (c_max_t cfg) = Some levels /\
+    c_levels cfg = levels /\ c_variant cfg = k_variant k /\ c_mode cfg = k_mode k /\
+    c_mra cfg = (match k_mra k with Some _ => true | None => false end).
+Proof.
+  unfold make_config. intro H.
+  destruct (Rung.MaxT.infer_max_resource_level (k_max_t k) (k_mra k) (k_cspace k)) as [max_t|]; [|discriminate].
+  destruct (Rung.sh_rung_levels (k_rung_levels k) (k_grace k) (k_rf k) (k_incr k) max_t) as [[|l0 ls]|] eqn:E;
+    try discriminate.
+  remember (l0 :: ls) as levels eqn:Hlv. clear Hlv.
+  inv H. exists levels. unfold c_levels. cbn [c_max_t c_rungs c_variant c_mode c_mra].
+  repeat split; auto. apply map_fst_combine. symmetry. apply mk_quantiles_length.
+Qed.
+
+Lemma make_config_wf k cfg : make_config k = Some cfg -> cfg_wf cfg /\ cfg_pos cfg.
+Proof.
+  intro H. apply make_config_inv in H as [levels [_ [Hl [Hc _]]]].
+  destruct (RungProofs.sh_rung_levels_wf _ _ _ _ _ _ Hl) as [[Hs Hf] Hne].
+  unfold cfg_wf, cfg_pos. rewrite Hc. rewrite Forall_forall in Hf.
+  split; [split; [exact Hs|apply Forall_forall; intros x Hx; apply Hf in Hx; lia]|].
+  split; [apply Forall_forall; intros x Hx; apply Hf in Hx; lia|].
+  destruct levels as [|x r]; [congruence|]. specialize (Hf x (or_introl eq_refl)). lia.
+Qed.
+
+Lemma make_config_max_t k cfg : make_config k = Some cfg -> documented_max k (c_max_t cfg).
+Proof.
+  intro H. apply make_config_inv in H as [levels [Hi _]]. unfold documented_max.
+  unfold Rung.MaxT.infer_max_resource_level in Hi.
+  destruct (k_max_t k) as [v|]; [left; congruence|]. right.
+  destruct (k_mra k) as [a|]; simpl in Hi.
+  - destruct (Rung.MaxT.cs_getval (k_cspace k) a) as [v|] eqn:Eg.
+    + left. split; [reflexivity|]. exists a. split; [reflexivity|]. congruence.
+    + right. split; [reflexivity|]. split; [right; exists a; auto|exact Hi].
+  - right. split; [reflexivity|]. split; [left; reflexivity|exact Hi].
+Qed.
+
+(* never more than the documented maximum: every config[max_resource_attr] value handed out by a scheduler
+   built from constructor arguments k is at most the documented maximum, and a report at or beyond it is
+   answered STOP *)
+Lemma ctor_resource_cap k cfg evs st os n br b got st' o v :
+  make_config k = Some cfg -> run cfg evs = Ok (st, os) -> suggest cfg st n br b got = Ok (st', o) ->
+  (exists t, o = OStart t (Some v)) \/ (exists t s j from nxt, o = OResume t (Some v) s j from nxt) ->
+  exists vmax, documented_max k vmax /\ (v <= vmax)%Z.
+Proof.
+  intros Hk Hrun Hs Ho. exists (c_max_t cfg). split; [apply make_config_max_t; exact Hk|].
+  destruct (make_config_wf _ _ Hk) as [Hwf _].
+  exact (proj2 (resource_cap _ _ _ _ _ _ _ _ _ _ _ Hwf Hrun Hs Ho)).
+Qed.
+
+Lemma ctor_stop_at_max k cfg evs st os t r m c eps ti br rs ms rf st' d :
+  make_config k = Some cfg -> run cfg evs = Ok (st, os) ->
+  lookup t (st_active st) = Some ti -> ti_dec ti = CONTINUE -> lookup t (st_task st) = Some br ->
+  nth_error (st_sys st) (fst (sys_of cfg br)) = Some rs -> lookup t (rs_running rs) = Some (ms, rf) ->
+  (1 <= r)%Z -> on_trial_result cfg st t r m c eps = Ok (st', d) ->
+  forall vmax, documented_max k vmax -> c_max_t cfg = vmax -> ((vmax <= r)%Z <-> d = STOP).
+Proof.
+  intros Hk Hrun Ha Hd Ht Hn Hl Hr H vmax _ Hv.
+  pose proof (pause_at_milestone_step cfg evs st os t r m c eps ti br rs ms rf Hrun Ha Hd Ht Hn Hl Hr) as Hp.
+  rewrite H in Hp. destruct Hp as [_ ->]. unfold expected_decision. rewrite Hv.
+  destruct (vmax <=? r)%Z eqn:E; [split; [reflexivity|lia]|].
+  split; [lia|]. destruct (r =? ms)%Z; discriminate.
+Qed.
+
+(* ==== what the config of a suggestion says is what the rung system waits for ============================= *)
+Lemma suggestion_target_stored cfg st n br b got st' o :
+  suggest cfg st n br b got = Ok (st', o) ->
+  match o with
+  | OResume t mra s j from nxt =>
+      s = fst (sys_of cfg br) /\ mra = (if c_mra cfg then Some nxt else None) /\
+      lookup t (st_task st') = Some br /\
+      exists rs', nth_error (st_sys st') s = Some rs' /\ lookup t (rs_running rs') = Some (nxt, Some from)
+  | OStart t mra =>
+      lookup t (st_task st') = Some br /\
+      exists rs' ms, nth_error (st_sys st') (fst (sys_of cfg br)) = Some rs' /\
+        lookup t (rs_running rs') = Some (ms, None) /\ mra = (if c_mra cfg then Some ms else None)
+  | _ => True
+  end.
+Proof.
+  intro H. apply suggest_shape in H as [rs [rs1 [p [Hn [Hs Hp]]]]].
+  destruct p as [[[[j t] rf] ms]|].
+  - destruct Hp as [_ [ti [_ [_ [-> ->]]]]]. simpl.
+    split; [reflexivity|]. split; [reflexivity|]. split; [apply lookup_update_eq|].
+    eexists. split; [eapply nth_error_set_nth_eq; eauto|]. simpl. apply lookup_update_eq.
+  - destruct Hp as [[_ [-> _]]|[_ [_ [-> ->]]]]; [exact I|]. simpl.
+    split; [apply lookup_update_eq|]. eexists. eexists.
+    split; [eapply nth_error_set_nth_eq; eauto|]. simpl. split; [apply lookup_update_eq|reflexivity].
+Qed.
+
+(* a trial promoted from the top rung is told to run to max_t *)
+Lemma top_rung_promotes_to_max_t cfg evs st os n br b got st' t mra s from nxt :
+  cfg_wf cfg -> run cfg evs = Ok (st, os) ->
+  suggest cfg st n br b got = Ok (st', OResume t mra s 0%nat from nxt) ->
+  nxt = c_max_t cfg /\ mra = (if c_mra cfg then Some (c_max_t cfg) else None).
+Proof.
+  intros Hcfg Hrun H.
+  destruct (eligibility_sound _ _ _ _ _ _ _ _ _ _ _ _ _ _ _ Hcfg Hrun H)
+    as [rs [r [pos [e [_ [_ [_ [_ [_ [_ [_ [_ [_ [_ [Hnxt Hmra]]]]]]]]]]]]]]].
+  simpl in Hnxt. subst nxt. auto.
 Qed.
